@@ -496,24 +496,23 @@ func (sq *Queue) setPreemptionTime(oldMaxResource *resources.Resource, oldDelay 
 		return
 	}
 
-	// Quota has been increased but earlier set quota changes not yet enforced.
+	// Quota has been increased, or changed in different directions for different resource types, but earlier set quota
+	// changes not yet enforced.
 	// Irrespective of whether quota increased from already lowered value or the original value (which is not yet enforced either ways),
 	// decision would be taken later based on the usage then during the scheduling cycle
 	// Adjust the delay only here if it has been changed
-	if resources.StrictlyGreaterThan(sq.maxResource, oldMaxResource) {
-		if !sq.quotaPreemptionStartTime.IsZero() {
-			if oldDelay != sq.quotaPreemptionDelay {
-				sq.quotaPreemptionStartTime = sq.quotaPreemptionStartTime.Add(sq.quotaPreemptionDelay - oldDelay)
-				log.Log(log.SchedQueue).Info("consecutive change of quota with delay change",
-					zap.String("queue", sq.QueuePath),
-					zap.Time("quotaPreemptionStartTime", sq.quotaPreemptionStartTime),
-					zap.Duration("delta", sq.quotaPreemptionDelay-oldDelay))
-				return
-			}
-			log.Log(log.SchedQueue).Info("consecutive change of quota: preemption time already set from earlier quota change",
+	if !sq.quotaPreemptionStartTime.IsZero() {
+		if oldDelay != sq.quotaPreemptionDelay {
+			sq.quotaPreemptionStartTime = sq.quotaPreemptionStartTime.Add(sq.quotaPreemptionDelay - oldDelay)
+			log.Log(log.SchedQueue).Info("consecutive change of quota with delay change",
 				zap.String("queue", sq.QueuePath),
-				zap.Time("quotaPreemptionStartTime", sq.quotaPreemptionStartTime))
+				zap.Time("quotaPreemptionStartTime", sq.quotaPreemptionStartTime),
+				zap.Duration("delta", sq.quotaPreemptionDelay-oldDelay))
+			return
 		}
+		log.Log(log.SchedQueue).Info("consecutive change of quota: preemption time already set from earlier quota change",
+			zap.String("queue", sq.QueuePath),
+			zap.Time("quotaPreemptionStartTime", sq.quotaPreemptionStartTime))
 	}
 }
 
